@@ -26,7 +26,7 @@ import z3
 
 from pyvc import contract, prims
 from pyvc.contract import LoopSpec, Outcome, Spec
-from pyvc.engine import RaiseSig, Unsupported, as_z3_bool, bytes_num
+from pyvc.engine import ContractStale, RaiseSig, Unsupported, as_z3_bool, bytes_num
 from pyvc.ground import All, Ex, FAnd, FNot, FOr
 from pyvc.values import (B, I, NONE, VBool, VBytes, VExc, VFunc, VInt, VNone, VOpaque, VRef,
                          VStr, VTuple, fresh_name)
@@ -297,7 +297,7 @@ class FindRefs(GCSpec):
             pos0 = cc.E['pos'].t
             dh = fr.locals.get('dh')
             if not (isinstance(dh, VRef) and cc.obj(dh).cls == M.DH):
-                return [('dh-is-a-header', False)]
+                raise ContractStale('the loop contract expects the local(s) it names (dh-is-a-header): the code has a different shape')
             hf = cc.obj(dh).f
             plen, back = hf['plen'].t, hf['back'].t
             P = z3.simplify(cc.obj(w.file).f['pos'] - 42 - z3.If(plen == 0, 8, 0))
@@ -492,7 +492,7 @@ class FindReachableAtPacktime(GCSpec):
         def inv0(cc, fr):
             t = todo_of(cc, fr)
             if t is None:
-                return [('todo-is-a-list', False)]
+                raise ContractStale('the loop contract expects the local(s) it names (todo-is-a-list): the code has a different shape')
             return self.clauses(cc, cc.E, cc.E.old[self.w(cc, cc.E).reachable.id], bag=t.f['bag'])
 
         def exit0(cc, fr):
@@ -505,11 +505,11 @@ class FindReachableAtPacktime(GCSpec):
             t = todo_of(cc, fr)
             w = self.w(cc, cc.E)
             if t is None:
-                return [('todo-is-a-list', False)]
+                raise ContractStale('the loop contract expects the local(s) it names (todo-is-a-list): the code has a different shape')
             pos = fr.locals.get('pos')
             cur = fr.locals.get('$iter1')
             if not isinstance(pos, VInt) or cur is None:
-                return [('pos-is-a-position', False)]
+                raise ContractStale('the loop contract expects the local(s) it names (pos-is-a-position): the code has a different shape')
             dom = cc.obj(w.reachable).f['dom']
             bag = t.f['bag']
             sel = z3.Select
@@ -725,11 +725,11 @@ class FindReachableFromFuture(GCSpec):
         fo = cc.obj(w.file).f
         xr = self.xr(cc, fr)
         if xr is None:
-            return [('extra_roots-is-a-list', False)]
+            raise ContractStale('the loop contract expects the local(s) it names (extra_roots-is-a-list): the code has a different shape')
         arr, ln, where = xr
         bagF = self.fut(cc, fr)
         if bagF is None:
-            return [('future_refs-is-a-list', False)]
+            raise ContractStale('the loop contract expects the local(s) it names (future_refs-is-a-list): the code has a different shape')
         queued = lambda p: z3.And(sel(where, p) >= 0, sel(where, p) < ln, sel(arr, sel(where, p)) == p)
         return [
             ('references-of-later-records-are-queued', self.own_refs_queued(cc, w, bagF, upto)),
@@ -776,7 +776,7 @@ class FindReachableFromFuture(GCSpec):
             pos, tpos, end = fr.locals['pos'].t, fr.locals['tpos'].t, fr.locals['end'].t
             th = fr.locals.get('th')
             if not (isinstance(th, VRef) and cc.obj(th).cls == M.TH):
-                return [('th-is-a-header', False)]
+                raise ContractStale('the loop contract expects the local(s) it names (th-is-a-header): the code has a different shape')
             T.link(cc, tpos)
             w.R.link(cc, pos)
             tlen = cc.obj(th).f['tlen'].t
@@ -793,7 +793,7 @@ class FindReachableFromFuture(GCSpec):
             cur = fr.locals.get('$iter2')
             xr = self.xr(cc, fr)
             if cur is None or xr is None:
-                return [('iterating-extra-roots', False)]
+                raise ContractStale('the loop contract expects the local(s) it names (iterating-extra-roots): the code has a different shape')
             arr, ln, where = xr
             R0 = cc.E.old[w.reachable.id]
             R = cc.obj(w.reachable).f
@@ -981,7 +981,7 @@ class BuildPackIndex(GCSpec):
             pos, tpos, end = fr.locals['pos'].t, fr.locals['tpos'].t, fr.locals['end'].t
             th = fr.locals.get('th')
             if not (isinstance(th, VRef) and cc.obj(th).cls == M.TH):
-                return [('th-is-a-header', False)]
+                raise ContractStale('the loop contract expects the local(s) it names (th-is-a-header): the code has a different shape')
             T.link(cc, tpos)
             w.R.link(cc, pos)
             tlen = cc.obj(th).f['tlen'].t
